@@ -9,7 +9,7 @@
 #include <string.h>
 
 #define VP_MAXT 6
-enum { VP_B_NONE, VP_B_MUTEX, VP_B_RD, VP_B_WR, VP_B_CV, VP_B_CVT, VP_B_YIELD, VP_B_TIMED };
+enum { VP_B_NONE, VP_B_MUTEX, VP_B_RD, VP_B_WR, VP_B_CV, VP_B_CVT, VP_B_YIELD, VP_B_TIMED, VP_B_GUARD };
 enum { VP_O_NA, VP_O_UNORDERED, VP_O_MONOTONIC, VP_O_ACQUIRE, VP_O_RELEASE, VP_O_ACQ_REL, VP_O_SEQ_CST };
 
 #ifdef VP_NATIVE
@@ -233,6 +233,7 @@ static inline void vp_cv_notify_one(char* cv) {
   }
 }
 
+static inline int vp_guard_can_enter(char* g);
 /* is thread t, which ended its last context blocked, able to move now? (deadlock = nobody unfinished can) */
 static inline int vp_enabled(int t) {
   switch (vp_blk_kind[t]) {
@@ -244,6 +245,7 @@ static inline int vp_enabled(int t) {
     case VP_B_CVT: return vp_mutex_free(vp_blk_b[t]);
     case VP_B_YIELD: return vp_yepoch[t] != vp_epoch;
     case VP_B_TIMED: return 1;
+    case VP_B_GUARD: return vp_guard_can_enter(vp_blk_a[t]);
   }
   return 1;
 }
@@ -281,14 +283,17 @@ static inline void vp_memset_b(char* d, int c, uint64_t n) { for (uint64_t i = 0
 #endif
 static inline int vp_memcmp(char* a, char* b, uint64_t n) { return memcmp(a, b, n); }
 static inline uint64_t vp_strlen(char* a) { return strlen(a); }
+static inline int vp_strcmp(char* a, char* b) { return strcmp(a, b); }
 static inline char* vp_memchr(char* a, int c, uint64_t n) { return (char*)memchr(a, c, n); }
 static inline uint32_t vp_ctlz(uint64_t x, int n) { uint32_t c = 0; for (int i = n - 1; i >= 0; i--) { if ((x >> i) & 1) break; c++; } return c; }
 static inline uint32_t vp_cttz(uint64_t x, int n) { uint32_t c = 0; for (int i = 0; i < n; i++) { if ((x >> i) & 1) break; c++; } return c; }
 static inline uint32_t vp_ctpop(uint64_t x, int n) { uint32_t c = 0; for (int i = 0; i < n; i++) c += (x >> i) & 1; return c; }
 
 /* ------------------------------------------------------------------ function-local statics */
-static inline int vp_cxa_guard_acquire(char* g) { if (*(uint8_t*)g) return 0; return 1; }
-static inline void vp_cxa_guard_release(char* g) { *(uint8_t*)g = 1; }
+/* guard byte 0 = initialised, byte 1 = initialisation in progress (owner id + 1): a second thread waits, as the ABI requires */
+static inline int vp_guard_can_enter(char* g) { return ((uint8_t*)g)[0] != 0 || ((uint8_t*)g)[1] == 0; }
+static inline int vp_cxa_guard_acquire(char* g) { if (((uint8_t*)g)[0]) return 0; ((uint8_t*)g)[1] = (uint8_t)(vp_cur + 1); return 1; }
+static inline void vp_cxa_guard_release(char* g) { ((uint8_t*)g)[0] = 1; ((uint8_t*)g)[1] = 0; }
 static inline int vp_cxa_atexit(char* f, char* a, char* d) { (void)f; (void)a; (void)d; return 0; }
 
 /* ------------------------------------------------------------------ exceptions (E1 lowering) */
@@ -407,5 +412,10 @@ static inline void vp_tab_del(int32_t t, char* p) {
 }
 static inline int32_t vp_tab_count(int32_t t) { int c = 0; for (int i = 0; i < VP_TAB; i++) c += vp_tab_used[t][i]; return c; }
 static inline int32_t vp_tab_has(int32_t t, char* p) { return vp_tab_find(t, p) >= 0; }
+
+#ifndef VP_HB
+static inline void vp_hb_data_write(int32_t loc) { (void)loc; }
+static inline void vp_hb_data_read(int32_t loc) { (void)loc; }
+#endif
 
 #endif
